@@ -277,6 +277,44 @@ def _init_chain_attrs(ctx, cls):
     return attrs, params
 
 
+def _json_protocol(ctx):
+    """How sampler objects are named in the JSON form and resolved back:
+    (writer specials {sampler class: constant name}, reader specials {name: class constructed}, reader has the
+    `getattr(domain_cls, '_' + name)` fallback).  Derived from the functions that build / read 'sampler_cls'."""
+    P = ctx.P
+    mod = P.cls("Domain").module
+    wspecial, rspecial, fallback = {}, {}, False
+    for f in mod.functions.values():
+        src = U(f.node)
+        if "'sampler_cls'" not in src:
+            continue
+        for st in walk_shallow(f.node):
+            if isinstance(st, ast.If):
+                t = st.test
+                # writer:  if isinstance(sampler, K): return {"sampler_cls": "N", ...}
+                if isinstance(t, ast.Call) and fn_name(t) == "isinstance" and len(t.args) == 2:
+                    k = P.resolve_expr_static(mod, t.args[1], None)
+                    for x in walk_shallow(ast.Module(body=st.body, type_ignores=[])):
+                        if isinstance(x, ast.Dict):
+                            for kk, vv in zip(x.keys, x.values):
+                                if isinstance(kk, ast.Constant) and kk.value == "sampler_cls" and isinstance(vv, ast.Constant) \
+                                        and isinstance(k, ClassInfo):
+                                    wspecial[k] = vv.value
+                # reader:  if sampler_cls == "N": return K(...)
+                if isinstance(t, ast.Compare) and len(t.ops) == 1 and isinstance(t.ops[0], ast.Eq) and isinstance(t.comparators[0], ast.Constant) \
+                        and isinstance(t.comparators[0].value, str):
+                    for x in st.body:
+                        if isinstance(x, ast.Return) and isinstance(x.value, ast.Call):
+                            k = P.resolve_expr_static(mod, x.value.func, None)
+                            if isinstance(k, ClassInfo):
+                                rspecial[t.comparators[0].value] = k
+        if "getattr(domain_cls, '_' + " in src:
+            fallback = True
+    if not fallback and not rspecial:
+        raise AnchorError("config_space: the code that resolves 'sampler_cls' back to a sampler class is not recognised")
+    return wspecial, rspecial, fallback
+
+
 def s3(ctx, rep):
     P = ctx.P
     domain = P.cls("Domain")
@@ -314,6 +352,7 @@ def s3(ctx, rep):
         dflt = k.class_attrs.get("default_sampler_cls")
         if isinstance(dflt, ast.Name) and dflt.id in k.nested:
             attached.append((k, k.nested[dflt.id], dflt, None))
+    wspecial, rspecial, fallback = _json_protocol(ctx)
     seen = set()
     for D, S, node, m in attached:
         # samplers are attached on a copy of the *domain the method is called on*: only the defining class matters
@@ -327,7 +366,10 @@ def s3(ctx, rep):
         seen.add(key)
         strm = P.lookup_method(S, "__str__")
         name = None
-        if strm is not None:
+        special_w = [n_ for k_, n_ in wspecial.items() if k_ in P.mro(S)]
+        if special_w:
+            name = special_w[0]
+        elif strm is not None:
             rv = [r.value for r in returns_of(strm)]
             if len(rv) == 1 and isinstance(rv[0], ast.Constant) and isinstance(rv[0].value, str):
                 name = rv[0].value
@@ -337,27 +379,23 @@ def s3(ctx, rep):
                     f"sampler class {S.short} has no __str__ returning a constant name: to_dict writes the default object "
                     f"repr as sampler_cls and from_dict's getattr({D.name}, '_' + name) raises AttributeError")
             continue
-        target = None
-        for kk in P.mro(D):
-            if "_" + name in kk.nested:
-                target = kk.nested["_" + name]
-                break
+        target = rspecial.get(name)
+        if target is None and fallback:
+            for kk in P.mro(D):
+                if "_" + name in kk.nested:
+                    target = kk.nested["_" + name]
+                    break
         ok = target is S
         rep.put(ok, "S3", "agreement", f"JSON sampler name round trip: {where}", m or D, node,
-                f"str → {name!r} → {D.name}._{name} is {S.short}",
-                f"{S.short}.__str__ (inherited from {strm.defining_cls.name}) returns {name!r}; from_dict looks up "
+                (f"written as {name!r}, reader table → {S.short}" if name in rspecial else f"str → {name!r} → {D.name}._{name} is {S.short}"),
+                f"{S.short} is written as {name!r}" + (f" (its __str__, inherited from {strm.defining_cls.name})" if strm is not None else "") + "; from_dict looks up "
                 f"{D.name}._{name} = {target.short if target else 'nothing'}: a space using this sampler is read back "
                 "with a different sampler (encodes differently)" )
-        if ok:
+        if ok and name not in rspecial:
             a2, p2 = _init_chain_attrs(ctx, S)
             pub2 = {a for a in a2}
             rep.put(pub2 == set(p2), "S3", "agreement", f"JSON sampler kwargs: {S.short} attributes == constructor parameters", S, None,
                     f"{sorted(pub2)}")
-    # from_dict performs the lookup this rule models
-    fd = P.func("syne_tune.config_space.from_dict")
-    ok = "getattr(domain_cls, '_' + d['sampler_cls'])" in U(fd.node)
-    if not ok:
-        raise AnchorError("from_dict no longer resolves the sampler as getattr(domain_cls, '_' + name)")
 
 
 # ----------------------------------------------------------------------------- S4
